@@ -60,7 +60,8 @@ func (b *Bounds) extendPointss(pointss []Path) {
 
 // Overlaps returns whether b and b2 overlap.
 func (b *Bounds) Overlaps(b2 *Bounds) bool {
-	return b.Min.X <= b2.Max.X && b.Min.Y <= b2.Max.Y && b.Max.X >= b2.Min.X && b.Max.Y >= b2.Min.Y
+	return !b.Empty() && !b2.Empty() &&
+		b.Min.X <= b2.Max.X && b.Min.Y <= b2.Max.Y && b.Max.X >= b2.Min.X && b.Max.Y >= b2.Min.Y
 }
 
 // Bounds returns b
